@@ -129,13 +129,18 @@ impl RestorerJob {
         self.submit_descs.push(submit)
     }
 
-    pub fn increase_crash_counters(&mut self, worker_id: WorkerId) {
+    /// Tasks that were running on the lost worker (for a multi-node task: on its root node)
+    /// are waiting again; the crash counter is increased if the worker was lost by a failure.
+    pub fn worker_lost(&mut self, worker_id: WorkerId, is_failure: bool) {
         for task in self.tasks.values_mut() {
             match &task.state {
                 JobTaskState::Running { started_data }
-                    if started_data.worker_ids.contains(&worker_id) =>
+                    if started_data.worker_ids.first() == Some(&worker_id) =>
                 {
-                    task.crash_counter += 1;
+                    if is_failure {
+                        task.crash_counter += 1;
+                    }
+                    task.state = JobTaskState::Waiting;
                 }
                 _ => {}
             }
@@ -236,10 +241,8 @@ impl StateRestorer {
                 EventPayload::WorkerLost(worker_id, reason) => {
                     // The record of the worker connection may be already pruned
                     self.max_worker_id = self.max_worker_id.max(worker_id.as_num());
-                    if reason.is_failure() {
-                        for job in self.jobs.values_mut() {
-                            job.increase_crash_counters(worker_id);
-                        }
+                    for job in self.jobs.values_mut() {
+                        job.worker_lost(worker_id, reason.is_failure());
                     }
                 }
                 EventPayload::WorkerOverviewReceived(_) => {}
